@@ -38,7 +38,7 @@ void harness(void) {
 #elif defined(H_ALLOC_MULTIPLE)
 void harness(void) {
   VERIF_ALLOC_RESET();
-  _cbor_malloc = v_malloc; _cbor_realloc = v_realloc; _cbor_free = v_free;
+  verif_bind_allocator();
   size_t in_a = nondet_size(), in_b = nondet_size();
   void *r = _cbor_alloc_multiple(in_a, in_b);
   __CPROVER_assert(r == NULL, "COVER granted");
@@ -48,7 +48,7 @@ void harness(void) {
 #elif defined(H_REALLOC_MULTIPLE)
 void harness(void) {
   VERIF_ALLOC_RESET();
-  _cbor_malloc = v_malloc; _cbor_realloc = v_realloc; _cbor_free = v_free;
+  verif_bind_allocator();
   size_t in_a = nondet_size(), in_b = nondet_size(), in_old = nondet_size();
   unsigned char *p = NULL;
   if (nondet_size() & 1) {
